@@ -762,3 +762,94 @@ def t_plain_print(t):
 
 
 KINDS.update({"plain_ops": t_plain_ops, "plain_print": t_plain_print})
+
+
+# ---------------------------------------------------------------- C06: the encoder's instance data and hard constraints
+def _sv(x):
+    return "#%d" % x if isinstance(x, int) and not isinstance(x, bool) else str(x)
+
+
+def enc_instance(fe, p):
+    """what Models/Encoding.lean needs of a FullEncoding object; None when an option / shape is outside the model"""
+    import re as _re
+    from smt_encoding.instructions.encoding_instruction import InstructionSubset
+    import global_params.constants as constants
+    env = _formula_env()
+    bounds = fe._bounds
+    rows = []
+    for ins in fe._instructions:
+        sub = ins.instruction_subset
+        if sub == InstructionSubset.basic:
+            name = ins.id
+            if name == "NOP":
+                kind = "nop"
+            elif name == "POP":
+                kind = "pop"
+            elif name == "PUSH":
+                kind = "push"
+            elif _re.fullmatch("DUP[0-9]+", name):
+                kind = "dup:%s" % name[3:]
+            elif _re.fullmatch("SWAP[0-9]+", name):
+                kind = "swap:%s" % name[4:]
+            else:
+                return None, "basic instruction %s" % name
+        else:
+            o = ",".join(_sv(x) for x in ins.input_stack)
+            r = ins.output_stack
+            if sub == InstructionSubset.store:
+                kind = "st:%s" % o
+            elif sub == InstructionSubset.pop:
+                kind = "pu:%s" % o
+            elif sub == InstructionSubset.comm:
+                if r is None:
+                    return None, "commutative instruction without output"
+                kind = "cm:%s:%s" % (o, _sv(r))
+            else:
+                if r is None:
+                    return None, "non-commutative instruction without output"
+                kind = "nc:%s:%s" % (o, _sv(r))
+        th = ins.theta_value
+        rows.append("%d~%s~%s~%d~%d" % (th, ins.id, kind, bounds.lower_bound_theta_value(th), bounds.upper_bound_theta_value(th)))
+    terms = ";".join("%s=%s" % (k, _ser(v, env)) for k, v in fe._stack_var_to_term.items())
+    inst = [str(fe.bs), str(fe.b0), str(constants.int_limit), "1" if p.encode_terms == "uninterpreted_uf" else "0", "1" if fe._terminal else "0",
+            ";".join(rows), ",".join(_sv(x) for x in fe.initial_stack), ",".join(_sv(x) for x in fe.final_stack), terms]
+    meta = {"first": bounds.first_position_sequence, "last": bounds.last_position_sequence, "empty": bool(p.empty)}
+    return inst, meta
+
+
+def t_enc(t):
+    """for every small specification of a block: instance data of the real FullEncoding and its hard constraints,
+    serialised in the S-expression form of FormulaIO (C06 correspondence with Models/Encoding.lean)"""
+    import copy
+    from smt_encoding.complete_encoding.synthesis_full_encoding import FullEncoding
+    p = params_for(t["opts"])
+    env = _formula_env()
+    r = {"text": t["text"], "opts": t["opts"], "subs": []}
+    try:
+        bs = impl.parse_block(t["text"])
+        b = bs[0]
+        with impl.quiet():
+            d, subs = impl.gasol_asm.compute_original_sfs_with_simplifications(b, p)
+    except Exception as ex:
+        r["exception"] = "%s: %s" % (type(ex).__name__, ex)
+        return r
+    for name, spec in d["syrup_contract"].items():
+        if spec["init_progr_len"] > t.get("max_len", 8) or spec["init_progr_len"] == 0:
+            continue
+        e = {"name": name, "b0": spec["init_progr_len"], "bs": spec["max_sk_sz"]}
+        try:
+            fe = FullEncoding(copy.deepcopy(spec), p)
+            hard = [_ser(c.formula, env) for c in fe.generate_hard_constraints()]
+            inst, meta = enc_instance(fe, p)
+            e["hard"] = hard
+            e["inst"] = inst
+            e["meta"] = meta
+        except Exception as ex:
+            import traceback
+            e["exception"] = "%s: %s" % (type(ex).__name__, ex)
+            e["tb"] = traceback.format_exc()[-500:]
+        r["subs"].append(e)
+    return r
+
+
+KINDS.update({"enc": t_enc})
